@@ -2,6 +2,7 @@ package c07
 
 import (
 	"bytes"
+	"encoding/hex"
 	"flag"
 	"fmt"
 	"sort"
@@ -19,6 +20,10 @@ type Point struct {
 	Obj  int `json:"obj"`  // index into the sorted list of stored objects (mod its length)
 	Pos  int `json:"pos"`  // byte position (mod the object's length)
 	Mask int `json:"mask"` // 1..255, xor-ed into the byte
+	// Kind "" = xor one byte; "append" = Tail is appended to the object; "truncate" = the last Pos%16+1 bytes are cut off;
+	// "insert" = Tail is inserted at Pos
+	Kind string `json:"kind,omitempty"`
+	Tail string `json:"tail,omitempty"` // hex
 }
 
 // TamperCase: a keystore and a list of single-byte modifications, each applied alone and undone.
@@ -47,6 +52,18 @@ func genPoint(t *rapid.T) Point {
 		p.Mask = 1 << rapid.IntRange(0, 7).Draw(t, "bitno")
 	} else {
 		p.Mask = rapid.IntRange(1, 255).Draw(t, "mask")
+	}
+	// one modification in five changes the length of the object: bytes appended (white space, NUL, a copy of the
+	// object's own tail, arbitrary bytes), inserted, or the end cut off
+	switch rapid.IntRange(0, 9).Draw(t, "kind") {
+	case 0:
+		p.Kind = "append"
+		p.Tail = hex.EncodeToString(rapid.SampledFrom([][]byte{{'\n'}, {'\r', '\n'}, {' '}, {'\t'}, {0}, {' ', '\n', ' '}, {'x'}, {0xff}, {'\n', 'x'}, {0x30, 0x00}}).Draw(t, "tail"))
+	case 1:
+		p.Kind = "truncate"
+	case 2:
+		p.Kind = "insert"
+		p.Tail = hex.EncodeToString(rapid.SampledFrom([][]byte{{'\n'}, {' '}, {0}, {0xff}}).Draw(t, "ins"))
 	}
 	return p
 }
@@ -133,12 +150,34 @@ func CheckTamper(c TamperCase) (hx.Vs, *tamperInfo) {
 			mask = 1
 		}
 		mod := cp(d)
-		mod[pos] ^= mask
+		tail, _ := hex.DecodeString(p.Tail)
+		switch p.Kind {
+		case "append":
+			mod = append(mod, tail...)
+			pos = len(d)
+		case "truncate":
+			cut := pos%16 + 1
+			if cut >= len(mod) {
+				cut = len(mod) - 1
+			}
+			mod = mod[:len(mod)-cut]
+			pos = len(mod)
+		case "insert":
+			mod = append(append(cp(d[:pos]), tail...), d[pos:]...)
+		default:
+			mod[pos] ^= mask
+		}
+		if bytes.Equal(mod, d) {
+			continue
+		}
 		if err := st.put(o.Name, mod); err != nil {
 			vs.Add("harness:put", "%s: %v", o.Name, errs(err))
 			return vs, info
 		}
 		info.points++
+		if p.Kind != "" {
+			info.classes["edit:"+p.Kind]++
+		}
 		cls := "object:" + format + "/" + o.kindPart()
 		if o.Hist {
 			cls += "(old)"
@@ -206,7 +245,11 @@ func CheckTamper(c TamperCase) (hx.Vs, *tamperInfo) {
 			continue
 		}
 		seen[sig] = true
-		vs.Add(sig, "%s: byte %d of %d of stored object %s (%s) xor 0x%02x: %s", c.Format, pos, len(d), o, o.Name, mask, what)
+		how := fmt.Sprintf("xor 0x%02x", mask)
+		if p.Kind != "" {
+			how = fmt.Sprintf("%s %q", p.Kind, tail)
+		}
+		vs.Add(sig, "%s: byte %d of %d of stored object %s (%s) %s: %s", c.Format, pos, len(d), o, o.Name, how, what)
 	}
 	// the store must be intact again (harness self-check)
 	for _, k := range st.keys {
